@@ -401,4 +401,52 @@ theorem parseEventsLoop_ord (env : Env) (input : Str) (evs : List (Ev α)) (s c 
         (processEvent_ord env input ev s hi ho (hev ev List.mem_cons_self))
         (fun e he' => hev e (List.mem_cons_of_mem _ he')) hc
 
+/-! ### consecutive indices: when no index is skipped -/
+
+theorem incr_lower (l : List Nat) (m : Nat) (hp : l.Pairwise (· < ·)) (hm : ∀ a ∈ l, m ≤ a) (i : Nat) (hi : i < l.length) :
+    m + i ≤ l[i] := by
+  induction l generalizing m i with
+  | nil => cases hi
+  | cons x xs ih =>
+    obtain ⟨h1, h2⟩ := List.pairwise_cons.mp hp
+    cases i with
+    | zero => simpa using hm x List.mem_cons_self
+    | succ j =>
+      have hx := hm x List.mem_cons_self
+      have := ih (m + 1) h2 (fun a ha => by have := h1 a ha; omega) j (by simpa using hi)
+      simp only [List.getElem_cons_succ]
+      omega
+
+theorem incr_upper (l : List Nat) (n : Nat) (hp : l.Pairwise (· < ·)) (hn : ∀ a ∈ l, a < n) (i : Nat) (hi : i < l.length) :
+    l[i] + (l.length - i) ≤ n := by
+  induction l generalizing i with
+  | nil => cases hi
+  | cons x xs ih =>
+    obtain ⟨h1, h2⟩ := List.pairwise_cons.mp hp
+    have hn' : ∀ a ∈ xs, a < n := fun a ha => hn a (List.mem_cons_of_mem _ ha)
+    cases i with
+    | zero =>
+      simp only [List.getElem_cons_zero, List.length_cons, Nat.sub_zero]
+      cases xs with
+      | nil => have := hn x List.mem_cons_self; simp only [List.length_nil]; omega
+      | cons y ys =>
+        have := ih h2 hn' 0 (by simp)
+        have hxy := h1 y List.mem_cons_self
+        simp only [List.getElem_cons_zero, List.length_cons, Nat.sub_zero] at this ⊢
+        omega
+    | succ j =>
+      have := ih h2 hn' j (by simpa using hi)
+      simp only [List.getElem_cons_succ, List.length_cons]
+      omega
+
+/-- a strictly increasing list of `n` numbers below `n` is `0, 1, …, n-1` -/
+theorem IncBelow.eq_range {n : Nat} {l : List Nat} (h : IncBelow n l) (hl : l.length = n) : l = List.range n := by
+  apply List.ext_getElem
+  · simp [hl]
+  · intro i h1 h2
+    have a := incr_lower l 0 h.1 (fun _ _ => Nat.zero_le _) i h1
+    have b := incr_upper l n h.1 h.2 i h1
+    simp only [List.getElem_range]
+    omega
+
 end Cook
